@@ -129,6 +129,11 @@ type W struct {
 	// PsExpected: GB28181 sessions (start_rtp_pub) the harness knows to be running; each has a
 	// goroutine of the server reading a real UDP socket, counted with the relay goroutines
 	PsExpected int
+	// ExtraGor: client goroutines the harness itself started (e.g. an httpflv.PullSession driven
+	// directly); each is parked on a dial or on a live connection like a relay goroutine (atomic)
+	ExtraGor int64
+	// DialRaw: remote names whose accepted connections get no reference peer (the harness scripts them)
+	DialRaw map[string]bool
 	// the server's clock (unix milliseconds); pkg/logic Group methods read it through group.verifNow
 	clockMs int64
 }
@@ -412,6 +417,9 @@ func (w *W) RtmpPlayer(app, stream string) (*RtmpPeer, error) {
 
 // Accepted reports whether lal kept the connection open.
 func (p *RtmpPeer) Accepted() bool { return !p.Conn.Closed() && !p.Conn.Done() }
+
+// NewHijackWriter is an http.ResponseWriter + Hijacker over an in-memory connection.
+func NewHijackWriter(c *netsim.Conn) http.ResponseWriter { return &hijackWriter{c: c, hdr: http.Header{}} }
 
 // ---- HTTP subscribers ------------------------------------------------------------------------------------
 
